@@ -29,3 +29,4 @@ pub fn each_line(mut f: impl FnMut(&str) -> String) {
     out.flush().unwrap();
 }
 pub mod irdump;
+pub mod astdump;
